@@ -459,7 +459,9 @@ class Evaluator:
                     v = self.ev(e.func.value)
                     if isinstance(v, int) and not isinstance(v, bool):
                         return v.to_bytes(*pos, **kw)
-            except (OverflowError, ValueError, TypeError):
+            except OverflowError:
+                raise ModelRaise(Outcome("raise", "OverflowError", e))  # what the code itself does with a value that does not fit
+            except (ValueError, TypeError):
                 raise Unsupported(e, "conversion error on the model")
             raise Unsupported(e)
         if isinstance(e, ast.Call) and isinstance(e.func, ast.Name) and e.func.id in ("next", "iter") and 1 <= len(e.args) <= 2 and not e.keywords and e.func.id not in self.env:
